@@ -175,6 +175,9 @@ func findEndTime(moov *mp4.MoovBox, durationMS int) (endTime, endTimescale uint6
 		// Without stss every sample is a sync sample: crop just before the sample found.
 		lastSampleNr--
 	}
+	if lastSampleNr == 0 {
+		return 0, 0, fmt.Errorf("no sample before the first sync frame at or after time")
+	}
 	lastTime, lastDur := stts.GetDecodeTime(lastSampleNr)
 	endTime = lastTime + uint64(lastDur)
 
@@ -241,6 +244,9 @@ func findTrakEnds(traks []*mp4.TrakBox, endTime, endTimescale uint64) (map[uint3
 			return nil, err
 		}
 		endSampleNr--
+		if endSampleNr == 0 {
+			return nil, fmt.Errorf("no sample of track %d before the end time", trackID)
+		}
 		to.lastSampleNr = endSampleNr
 		decTime, dur := stts.GetDecodeTime(endSampleNr)
 		trackEndTime = decTime + uint64(dur)
